@@ -24,7 +24,8 @@ def scan(prog, chars):
             state = error_state
 
         if state == error_state:
-            if accept:
+            # An empty match makes no progress, treat it as no match:
+            if accept and end > start:
                 txt = chars[start:end]
                 yield txt
                 # Start over:
@@ -102,7 +103,8 @@ class Scanner:
                 self._state = self._error_state
 
             if self._state == self._error_state:
-                if self._accept:
+                # An empty match makes no progress, treat it as no match:
+                if self._accept and end > self._start:
                     token_txt = txt[self._start : end]
                     # print(self._state, token_txt)
 
